@@ -180,6 +180,20 @@ def _values(run, prog, cls, s, fq, db, cond, subset, x, n, mctx, mev):
         _, ifn = prog.find_method(cls, "__init__")
         vparam = ("param", [a.arg for a in ifn.args.args][2])
         vf = next((f for f, t in init.fields.items() if t == vparam), None)
+        if vf is None:
+            # the defaults are merged into a container that is not created by this constructor call
+            shared = [k.class_attrs and n for k in prog.mro(cls) for n in k.class_attrs]
+            for ev, _ in walk(init.events):
+                if isinstance(ev, (ir.Call, ir.Mut)) and getattr(ev, "method", None) in ("update", "__ior__", "setdefault") \
+                        and vparam in [a for a in ev.args]:
+                    tgt = ev.callee[5:] if isinstance(ev, ir.Call) and ev.callee.startswith("self.") else ir.show_nl(ev.recv)
+                    if tgt in shared:
+                        run.fail("VALUE", f"{name}.value", f"{init.path}:{ev.line}", f"{name}.__init__",
+                                 f"defaults merged into class-level {name}.{tgt}",
+                                 f"each DefaultImputer must impute its own configured values; the constructor merges them into "
+                                 f"the class-level dict `{tgt}`, which every instance shares (a second imputer overwrites the "
+                                 f"defaults of the first)")
+                        return
         run.need(vf is not None, "DefaultImputer does not store its default values")
         for key, val, ectx, eev in db.entries:
             run.check(val == ("sub", ("field0", vf), ("elem", db.lid)), "VALUE", f"{name}.value",
@@ -316,6 +330,38 @@ def _nomut(run, prog, cls, s, fq, x, subset):
             run.fail("NOMUT", f"{cls.name}.nomut", f"{s.path}:{ev.line}", fq, "storage updated by impute",
                      "impute updates the storage")
             hits.append(ev)
+    # methods of the storage that impute calls must be read-only on every storage class that offers them
+    init = prog.summarise(cls, "__init__")
+    sfields = [f for f, t in init.fields.items() if t[0] == "param" and "storage" in t[1]]
+    from .imputerlib import base_class
+    try:
+        storages = prog.subclasses(base_class(prog, "STORAGE"), strict=True)
+    except Exception:
+        storages = []
+    for ev, ctx in walk(s.events):
+        if not (isinstance(ev, ir.Call) and ev.method and any(ev.callee == f"self.{f}" for f in sfields)):
+            continue
+        for sc in storages:
+            owner, m = prog.find_method(sc, ev.method)
+            if m is None or owner.name.startswith("Base") and ev.method in ("get_data", "__len__"):
+                continue
+            try:
+                ms = prog.summarise(sc, ev.method)
+            except ir.Unsupported:
+                continue
+            writes = [w for w, _ in walk(ms.events)
+                      if isinstance(w, (ir.Store, ir.SubStore, ir.Del)) or
+                      (isinstance(w, ir.Mut) and w.recv[0] in ("field0", "sub", "attr")) or
+                      (isinstance(w, ir.Call) and w.method in ir.MUTATORS and w.callee.startswith("self."))]
+            writes = [w for w in writes if not (isinstance(w, (ir.SubStore, ir.Mut)) and
+                                                (w.cont if isinstance(w, ir.SubStore) else w.recv)[0] == "new")]
+            if writes:
+                run.fail("NOMUT", f"{cls.name}.nomut", f"{s.path}:{ev.line}", fq,
+                         f"impute calls {sc.name}.{ev.method}, which writes: {run.stmt_text(ms.path, writes[0].line)}",
+                         f"impute calls the storage's {ev.method}(), and {sc.name}.{ev.method} modifies the storage "
+                         f"(line {writes[0].line}: {run.stmt_text(ms.path, writes[0].line)}): imputing changes what is stored")
+                hits.append(ev)
+                break
     if not hits:
         run.ok("NOMUT", f"{cls.name}.nomut", "no mutation reaches the instance, the subset or stored rows")
 
